@@ -152,7 +152,7 @@ def job_c07(job, progress):
         for _ in range(job.get('n_fresh', 10)):
             seqs.append(dict(fresh=True, ops=[gen_op(rng, n, times, steps, tables) for _ in range(rng.randint(1, job.get('max_len', 4)))]))
         for _ in range(job.get('n_walks', 2)):
-            seqs.append(dict(fresh=True, ops=[gen_op(rng, n, times, steps, tables) for _ in range(rng.randint(5, job.get('walk_len', 40)))]))
+            seqs.append(dict(fresh=True, ops=[gen_op(rng, n, times, steps, tables) for _ in range(rng.randint(min(5, job.get('walk_len', 40)), job.get('walk_len', 40)))]))
     for sq in seqs:
         lst.close()
         lst = L.open_listing(path)
@@ -203,7 +203,7 @@ def job_c07(job, progress):
     return res
 
 
-def build_jobs(ctx, rng, n_fresh, n_walks, walk_len, n_trunc, p_perturb):
+def build_jobs(ctx, rng, n_fresh, n_walks, walk_len, n_trunc, p_perturb, ops_budget=120):
     jobs = []
     for rel, family in L.corpus():
         data = (L.listing_base() / rel).read_bytes()
@@ -220,10 +220,16 @@ def build_jobs(ctx, rng, n_fresh, n_walks, walk_len, n_trunc, p_perturb):
         for frel, fvs in L.FIXED_VARIANTS:
             if frel == rel:
                 specs.append(fvs)
-        big = len(data) > 700000
+        # the cost of one action is one result block read (by the real reader and by the model): budget the number of
+        # actions per job by the size of a block
         for vs in specs:
+            nres = vs['keep'] if vs.get('kind') == 'truncate' else n
+            block = max(1, len(data) // max(1, n))
+            budget = int(max(6, min(ops_budget, ops_budget * 25000 // block)))
+            nf = max(2, min(n_fresh, budget // 6))
+            wl = max(4, min(walk_len, budget // 3))
             jobs.append(dict(rel=rel, family=family, vspec=vs, tmp=str(ctx.tmp), seed=rng.randrange(1 << 30),
-                             n_fresh=max(2, n_fresh // (3 if big else 1)), n_walks=n_walks, walk_len=walk_len if not big else max(8, walk_len // 4), max_len=4))
+                             n_fresh=nf, n_walks=n_walks if budget > 12 else 1, walk_len=wl, max_len=4))
     return jobs
 
 
